@@ -2913,7 +2913,8 @@ impl<'data, P: Platform> PreludeLayoutState<'data, P> {
     }
 
     /// Mark defsyms from the command-line as being directly referenced so that we emit the symbols
-    /// even if nothing in the code references them.
+    /// even if nothing in the code references them. Also requests the definitions of symbols named
+    /// by `--undefined`, so that they act as GC roots.
     fn mark_defsyms_as_used<'scope, A: Arch>(
         &self,
         resources: &'scope GraphResources<'data, '_, A::Platform>,
@@ -2922,6 +2923,32 @@ impl<'data, P: Platform> PreludeLayoutState<'data, P> {
     ) {
         for (index, def_info) in self.internal_symbols.symbol_definitions.iter().enumerate() {
             let symbol_id = self.symbol_id_range.offset_to_id(index);
+
+            if def_info.placement == SymbolPlacement::ForceUndefined {
+                // Symbols named by `--undefined` are GC roots, as they are in GNU ld and LLD. If an
+                // object defines the symbol, request it so that the section containing it gets
+                // loaded even when nothing else references it.
+                let canonical_id = resources.symbol_db.definition(symbol_id);
+                if canonical_id != symbol_id
+                    && !resources.local_flags_for_symbol(canonical_id).is_dynamic()
+                {
+                    let file_id = resources.symbol_db.file_id_for_symbol(canonical_id);
+                    let old_flags = resources
+                        .per_symbol_flags
+                        .get_atomic(canonical_id)
+                        .fetch_or(ValueFlags::DIRECT);
+                    if !old_flags.has_resolution() {
+                        queue.send_work::<A>(
+                            resources,
+                            file_id,
+                            WorkItem::LoadGlobalSymbol(canonical_id),
+                            scope,
+                        );
+                    }
+                }
+                continue;
+            }
+
             if !resources.symbol_db.is_canonical(symbol_id) {
                 continue;
             }
